@@ -171,6 +171,11 @@ theorem length_le_of_nodup_subset {α} [DecidableEq α] : ∀ (l r : List α), l
     simp only [List.length_cons]
     omega
 
+theorem pairsOfTable_pairRow : ∀ (en : List Pair), pairsOfTable (en.map pairRow) = some en
+  | [] => rfl
+  | (a, b) :: rest => by
+    simp [pairsOfTable, pairRow, pairsOfTable_pairRow rest]
+
 /-! ### normPair -/
 
 theorem normPair_le (p : Pair) : (normPair p).1 ≤ (normPair p).2 := by
